@@ -421,3 +421,15 @@ pub(crate) fn add_set_dyn_new<W, R, T>(
         ))
     })
 }
+
+#[cfg(feature = "verif")]
+impl<W: 'static, R: 'static, T: 'static> XSet<W, R, T> {
+    pub(super) fn verif_bucket_sizes(&self) -> Vec<usize> {
+        let mut ret: Vec<usize> = self.inner.values().map(|b| b.len()).collect();
+        ret.sort_unstable();
+        ret
+    }
+    pub(super) fn verif_len(&self) -> usize {
+        self.len
+    }
+}
